@@ -21,7 +21,7 @@ def _worker(job):
     t0 = time.time()
     out = {"task": task["name"], "paths": 0, "completed": 0, "aborted": 0, "violations": [], "inconclusive": [],
            "checks": 0, "solver_s": 0.0, "wall": 0.0, "labels": {}, "samples": [], "capped": False, "error": None,
-           "remaining": 0}
+           "remaining": 0, "known_hits": []}
     try:
         from . import core
         mod = importlib.import_module(modname)
@@ -31,7 +31,7 @@ def _worker(job):
         res = core.explore(harness, max_paths=task.get("max_paths", 100000), deadline=deadline)
         out.update(paths=res.paths, completed=res.completed, aborted=res.aborted, violations=res.violations,
                    inconclusive=res.inconclusive, checks=res.checks, solver_s=res.solver_s, labels=res.labels,
-                   samples=res.samples, capped=res.capped, remaining=len(getattr(res, "remaining", []) or []))
+                   samples=res.samples, capped=res.capped, known_hits=res.known_hits, remaining=len(getattr(res, "remaining", []) or []))
     except BaseException as e:  # noqa
         out["error"] = "%s: %s\n%s" % (type(e).__name__, e, traceback.format_exc()[-1500:])
     out["wall"] = time.time() - t0
